@@ -239,6 +239,11 @@ def main(argv=None):
         return 1
     if errors and len(errors) == len(ids):
         return 2
+    # vacuity guard: a run in which most obligations could not be decided says nothing (engine or harness broken)
+    undecided = {i for i, _m in inconclusive} | {i for i, _e in errors} | {i for i, _c in unconfirmed}
+    if ids and len(undecided) * 2 > len(ids):
+        print("HARNESS-ERROR property=%s %d of %d obligations were not decided (inconclusive / unconfirmed / failed): the run is not evidence" % (prop, len(undecided), len(ids)))
+        return 2
     return 0
 
 
